@@ -147,12 +147,23 @@ func (db *DB) ReviveObject(addr oid.Address) (res ReviveStatus, err error) {
 }
 
 func reviveCounters(metaC *bbolt.Cursor, gcStatus uint8, obj oid.ID) error {
-	var size uint64
+	var (
+		size uint64
+		phy  bool
+	)
 
 	for k, v := range iterIDAttrs(metaC, obj) {
-		if string(k) == object.FilterPayloadSize {
+		switch string(k) {
+		case object.FilterPayloadSize:
 			size, _ = strconv.ParseUint(string(v), 10, 64)
+		case object.FilterPhysical:
+			phy = string(v) == binPropMarker
+		default:
 		}
+	}
+	if !phy {
+		// payload of a virtual (parent) object was never subtracted
+		return nil
 	}
 
 	switch gcStatus {
